@@ -26,20 +26,40 @@ Definition pipe_op (ci : chinfo) (op : nat) (p : pipe) : pipe :=
   end.
 
 (* ---- case checker *)
-Definition pobs := (list cvec * list Z * list (list Z) * list Z * list (option Z))%type.
-Definition check_pobs (o : pobs) (p : pipe) : bool :=
-  let '(ch, sl, qm, qs, mf) := o in
-  let '(ch', sl', qm', qs', mf') := pipe_obs p in
-  zll_eqb ch ch' && zl_eqb sl sl' && zll_eqb qm qm' && zl_eqb qs qs' && all2 oz_eqb mf mf'.
-Definition legs_eqb (a : list (list block * Z)) (b : list leg) : bool :=
-  all2 (fun x y => blocks_eqb (fst x) (blocks y) && (snd x =? qc y)) a b.
+(* ((chinfo, legs, qconj, sort, bunch, (charges, slices, q_map, q_map_slices, map_incoming_flat on every tuple)),
+    [(op, (directions of the stored incoming legs of the result, qconj of the result, charges of the result,
+           same_blocks, same_layout))])
+   first component: exactly the case of PipeCase.check_pipe_case (same comparisons; the model pipe is built once);
+   second: the pipes returned by copy / conj / flip_charges_qconj / outer_conj.  To keep the literals small the
+   harness sends what can change (directions, charges) and two flags it computed from the implementation's output:
+   same_blocks = the (size, charge) blocks of the stored incoming legs of the result are those of the legs of the
+   pipe, same_layout = slices, q_map, q_map_slices of the result are those of the pipe.  In the model both hold for
+   every op (checked here by computation, not assumed), so a false flag is a disagreement.  map_incoming_flat of the
+   returned pipes is compared by the harness with the one of the pipe itself (equal in the model:
+   Proofs/PipeOpsP.v flip_pipe_mif; conj_pipe does not touch anything map_incoming_flat reads). *)
+Definition qrow_eqb (a b : qrow) : bool :=
+  (q_b0 a =? q_b0 b) && (q_b1 a =? q_b1 b) && Nat.eqb (q_Is a) (q_Is b) && nl_eqb (q_q a) (q_q b).
+Definition model_same_blocks (p p' : pipe) : bool :=
+  all2 (fun a b => blocks_eqb (blocks a) (blocks b)) (p_legs p) (p_legs p').
+Definition model_same_layout (p p' : pipe) : bool :=
+  zl_eqb (map fst (p_blocks p)) (map fst (p_blocks p')) && all2 qrow_eqb (p_qmap p) (p_qmap p')
+  && zl_eqb (p_qmap_slices p) (p_qmap_slices p').
 
-(* (chinfo, legs, qconj, sort, bunch, [(op, (incoming legs of the result, qconj of the result,
-     (charges, slices, q_map, q_map_slices, map_incoming_flat on every tuple) of the result))]) *)
-Definition check_pipe_ops_case
-  (c : chinfo * list (list block * Z) * Z * bool * bool * list (nat * (list (list block * Z) * Z * pobs))) : bool :=
-  let '(ci, ls, qconj, srt, bnch, ops) := c in
+Definition check_pipe_case2
+  (c : (chinfo * list (list block * Z) * Z * bool * bool *
+        (list cvec * list Z * list (list Z) * list Z * list (option Z))) *
+       list (nat * (list Z * Z * list cvec * bool * bool))) : bool :=
+  let '((ci, ls, qconj, srt, bnch, (ch, sl, qm, qs, mf)), ops) := c in
   let p := pipe_init ci (mk_legs ls) qconj srt bnch in
-  forallb (fun o => let '(op, (lg, q, ob)) := o in
-                    let p' := pipe_op ci op p in
-                    legs_eqb lg (p_legs p') && (q =? p_qconj p') && check_pobs ob p') ops.
+  let '(ch', sl', qm', qs', mf') := pipe_obs p in
+  zll_eqb ch ch' && zl_eqb sl sl' && zll_eqb qm qm' && zl_eqb qs qs' && all2 oz_eqb mf mf'
+  && all2 (fun t k => match k with
+                      | Some k' => match map_outgoing_flat p k' with
+                                   | Some t' => zl_eqb t t' | None => false end
+                      | None => false end)
+          (zgrid (map ind_len (mk_legs ls))) mf
+  && forallb (fun o => let '(op, (lq, q, och, same_blocks, same_layout)) := o in
+                       let p' := pipe_op ci op p in
+                       zl_eqb lq (map qc (p_legs p')) && (q =? p_qconj p') && zll_eqb och (map snd (p_blocks p'))
+                       && Bool.eqb same_blocks (model_same_blocks p p')
+                       && Bool.eqb same_layout (model_same_layout p p')) ops.
